@@ -40,8 +40,8 @@ func propC02(a *Analysis, r *Registry) {
 			fc := X.FCFor(fn)
 			env := X.EnvFor(fn, "d", "U")
 			z, n := fc.ReturnCond(isConstRet("0"))
-			if n != 1 {
-				r.Fail(rC, name+"/returns-0", b.pos(fn), "expected one guarded `return 0`")
+			if n < 1 {
+				r.Fail(rC, name+"/returns-0", b.pos(fn), "expected a guarded `return 0`")
 			} else {
 				b.Eq(rC, name+"/returns-0", b.pos(fn), z, env, "U<0 || 0.5+d.N1*d.N2<=U")
 			}
@@ -214,6 +214,7 @@ func propC02(a *Analysis, r *Registry) {
 				n  *RF
 			}
 			var stores []recStore
+			nBase := 0
 			for _, fc := range top.BoundCallees(1) {
 				fc := fc
 				fc.Ctx.Instrs(func(in ssa.Instruction) {
@@ -234,12 +235,16 @@ func propC02(a *Analysis, r *Registry) {
 						e2 := X.EnvFor(fn, "d", "U")
 						e2.Set("memo", memo, nil)
 						if c.Cmp(S.Int(1).N.terms[""].coef) == 0 {
+							nBase++
 							b.Eq(rB, name+"/base p_{0,m}(0)=1", a.W.InstrPos(st), fc.Val(ia), e2, "addr(memo[0], 0)")
 						}
 						return
 					}
 					stores = append(stores, recStore{fc, st, ia, row.Args[1]})
 				})
+			}
+			if nBase == 0 {
+				r.Fail(rB, name+"/base p_{0,m}(0)=1", b.pos(fn), "the base entry p_{0,m}(0) = 1 is never stored")
 			}
 			// m from the lp index of a store that has the left term: lp[U1-m] with lp = memo[n-1]
 			var m *RF
@@ -324,7 +329,17 @@ func propC02(a *Analysis, r *Registry) {
 					}
 					e2.Set("m", m, nil)
 					e2.Set("n", stores[0].n, nil)
-					b.Eq(rB, name+"/"+tag+"/first", b.pos(fn), vi, e2, init)
+					okI := false
+					for _, iv := range strings.Split(init, " | ") {
+						if vi.Equal(e2.MustParse(iv)) {
+							okI = true
+						}
+					}
+					if okI {
+						r.OK(rB, name+"/"+tag+"/first", b.pos(fn), "starts at "+init)
+					} else {
+						r.Fail(rB, name+"/"+tag+"/first", b.pos(fn), "starts at "+clip(vi.String(), 80)+", not at "+init)
+					}
 					b.EqRF(rB, name+"/"+tag+"/step", b.pos(fn), vn, v.Add(S.Int(1)), "advances by one")
 					_, gc, _, msg := b.loopGuard(pfc, hdr)
 					if msg != "" {
@@ -345,7 +360,9 @@ func propC02(a *Analysis, r *Registry) {
 						r.Fail(rB, name+"/"+tag+"/last", b.pos(fn), "the loop runs while "+clip(gc.String(), 300)+", not while "+bound)
 					}
 				}
-				counter("columns m", m, "0", "m<=M")
+				// (the m = 0 column only sets p_{0,0}(0) = 1 — no row n >= 1 fits — so the loop may
+				// start at 1 when that entry is set beforehand; the base-store obligation covers it)
+				counter("columns m", m, "0 | 1", "m<=M")
 				counter("rows n", stores[0].n, "1", "n<=ite(m<N, m, N) | n<=N && n<=m")
 			}
 		})
